@@ -27,10 +27,16 @@ LEVEL = {
  'C19': ('E3+E1', 'the x86-64 context-switch assembly interpreted symbolically over z3 bit-vectors for all register/memory contents (round trip, invariant induction, fresh context) + fiber_context_init / create / destroy for all stack sizes in range under CBMC'),
  'C20': ('E2', 'double-word-CAS structures: every interleaving of ABA-provoking programs (pop / reuse / push) on lifo, dist_fifo, mpmc_stack, multi-signal'),
 }
+NOT_APPLICABLE = {
+ 'C13': 'bounded symbolic checking could not reach a verdict: the real mpmc_fifo push/pop over the real hazard-pointer code (two hazard publications with fences, validation re-reads, retire list, scan reachable from hazard_pointer_free) exceeds what CBMC\'s partial-order encoding digests even at 1 pusher x 2 / 2 poppers (no verdict in 30 min); the harness e2/harness/mpmc.c is kept but not claimed (DESIGN.md section 5)',
+ 'C06': 'the semaphore blocks on the mpmc_fifo + hazard-pointer wait queue (same code as C13): no verdict within 30 min at 1 waiter + 1 poster; harness e2/harness/sem.c and props/C06.py are kept as stretch jobs but the property is not claimed (DESIGN.md section 5)',
+}
 checks, na = [], []
 for p in props:
     pid = p['id']
-    if os.path.exists(os.path.join(HERE, 'props', pid + '.py')) and pid not in os.environ.get('VERIF_HOLD_BACK', '').split(','):
+    if pid in NOT_APPLICABLE:
+        na.append({'property_id': pid, 'reason': NOT_APPLICABLE[pid]})
+    elif os.path.exists(os.path.join(HERE, 'props', pid + '.py')) and pid not in os.environ.get('VERIF_HOLD_BACK', '').split(','):
         eng, text = LEVEL[pid]
         checks.append({
             'property_id': pid,
